@@ -197,6 +197,79 @@ example : ctorContract 2 3 3 [4, 5] ∧ (cooCtor 2 3 1 3 (some [4, 5])).toOption
     (cooCtor 2 3 1 3 (some [4, -5])).toOption = none ∧
     ctorContract 0 1 1 [] ∧ (cooCtor 0 1 1 1 (some [])).toOption = some [] := by decide
 
+/-! ### the GCXS constructor `GCXS((data, indices, indptr), shape, compressed_axes)` -/
+
+/-- the full statement for the GCXS constructor (1-d `data` of length `dataLen`, 1-d integer `indices` and `indptr`): accepted exactly when
+the contract `gcxsContract` holds — non-negative extents, admissible `compressed_axes`, one datum per index, index pointers of length
+`prod(compressed extents) + 1` running from `0` to `len(indices)` and never decreasing, every index within the extent of the
+uncompressed axes.  Deliberately NOT demanded (and not checked by the code): sorted or distinct indices within a row. -/
+def Statement_gcxs_ctor_rejects_malformed : Prop :=
+  ∀ (dataLen : Nat) (indices indptr sh : List Int) (caxes : Option (List Int)),
+    gcxsCtor 1 dataLen indices indptr (some sh) caxes = .ok () ↔ gcxsContract dataLen indices indptr sh caxes
+
+/-- **gcxs_ctor_counterexample_0d.** `GCXS((array([5]), array([0]), array([])), shape=())` is accepted: every test on the three arrays
+sits under `len(shape) >= 1`; the contract (a 0-d array has no 1-d indices) rejects it -/
+theorem gcxs_ctor_counterexample_0d :
+    gcxsCtor 1 1 [0] [] (some []) none = .ok () ∧ ¬ gcxsContract 1 [0] [] [] none ∧ ExcludedZeroDim 1 [0] [] := by decide
+
+theorem not_Statement_gcxs_ctor_rejects_malformed : ¬ Statement_gcxs_ctor_rejects_malformed := by
+  intro h
+  exact gcxs_ctor_counterexample_0d.2.1 ((h 1 [0] [] [] none).mp gcxs_ctor_counterexample_0d.1)
+
+/-- **gcxs_ctor_rejects_malformed_partial.** For every shape with at least one axis (and for the 0-d shape with no stored data), every
+`compressed_axes`, every `indices` and `indptr` — sorted or not, in range or not — the constructor accepts exactly the triples of its
+contract.  This covers the lengths, both ends of `indptr`, its monotonicity and the range of every index (748e5d3). -/
+theorem gcxs_ctor_rejects_malformed_partial (dataLen : Nat) (indices indptr sh : List Int) (caxes : Option (List Int))
+    (hz : ¬ ExcludedZeroDim dataLen indices sh) :
+    gcxsCtor 1 dataLen indices indptr (some sh) caxes = .ok () ↔ gcxsContract dataLen indices indptr sh caxes :=
+  gcxsCtor_spec dataLen indices indptr sh caxes hz
+
+/-- **gcxs_ctor_accepts_wellformed.** no well-formed triple is turned away, whatever the shape -/
+theorem gcxs_ctor_accepts_wellformed (dataLen : Nat) (indices indptr sh : List Int) (caxes : Option (List Int))
+    (h : gcxsContract dataLen indices indptr sh caxes) : gcxsCtor 1 dataLen indices indptr (some sh) caxes = .ok () :=
+  gcxsCtor_accepts_contract dataLen indices indptr sh caxes h
+
+/-- **gcxs_ctor_error_classes.** Every rejection — any rank of `data`, shape given or not — is a `ValueError`, except the `TypeError`
+raised for `compressed_axes=None` with two or more axes (iterating `None`); never an internal class. -/
+theorem gcxs_ctor_error_classes (dn dataLen : Nat) (indices indptr : List Int) (shape caxes : Option (List Int)) (e : Err)
+    (h : gcxsCtor dn dataLen indices indptr shape caxes = .error e) :
+    e = Err.value ∨ (e = Err.type ∧ caxes = none ∧ ∃ sh, shape = some sh ∧ 2 ≤ sh.length) :=
+  gcxsCtor_error dn dataLen indices indptr shape caxes e h
+
+/-- **gcxs_ctor_rows_in_bounds.** What acceptance buys the kernels: for an accepted array with two or more axes every index pointer lies
+in `[0, len(indices)]`, so no row slice `indices[indptr[i] : indptr[i+1]]` (read without bounds checks in `nopython` mode) leaves the
+array, and every index addresses a cell of the uncompressed extent. -/
+theorem gcxs_ctor_rows_in_bounds (dataLen : Nat) (indices indptr sh : List Int) (c : List Int) (h2 : 2 ≤ sh.length)
+    (h : gcxsCtor 1 dataLen indices indptr (some sh) (some c) = .ok ()) :
+    (∀ p ∈ indptr, 0 ≤ p ∧ p ≤ (indices.length : Int)) ∧ (∀ v ∈ indices, 0 ≤ v ∧ v < uncompressedExtent sh c) := by
+  have hz : ¬ ExcludedZeroDim dataLen indices sh := by
+    rintro ⟨hnil, _⟩; simp [hnil] at h2
+  have hc := (gcxsCtor_spec dataLen indices indptr sh (some c) hz).mp h
+  obtain ⟨_, h0, hl, hp, hi⟩ := hc.2.2.2.2.2 h2
+  exact ⟨indptr_in_bounds indptr _ h0 hl hp, hi⟩
+
+/-- **gcxs_ctor_retired_witnesses_rejected.** the witnesses of the two repaired constructor defects: wrong lengths / index pointers not
+ending at `len(indices)` (5753560) and contents outside the shape — column 3 of a 1-column array, a negative column, a 1-d index
+`-1` and `5` of 3, index pointers `[0, 3, 2]` (748e5d3) — are all rejected with `ValueError` -/
+theorem gcxs_ctor_retired_witnesses_rejected :
+    gcxsCtor 1 1 [0] [0, 1] (some [2, 2]) (some [0]) = .error Err.value ∧
+    gcxsCtor 1 2 [0] [0, 1, 1] (some [2, 2]) (some [0]) = .error Err.value ∧
+    gcxsCtor 1 1 [0] [0, 2, 2] (some [2, 2]) (some [0]) = .error Err.value ∧
+    gcxsCtor 1 1 [0] [1, 1, 1] (some [2, 2]) (some [0]) = .error Err.value ∧
+    gcxsCtor 1 1 [3] [0, 1] (some [1, 1]) (some [0]) = .error Err.value ∧
+    gcxsCtor 1 3 [4, 0, 0] [0, 1, 2, 3] (some [3, 2]) (some [0]) = .error Err.value ∧
+    gcxsCtor 1 1 [-1] [0, 1, 1] (some [2, 2]) (some [0]) = .error Err.value ∧
+    gcxsCtor 1 1 [-1] [] (some [3]) none = .error Err.value ∧
+    gcxsCtor 1 1 [5] [] (some [3]) none = .error Err.value ∧
+    gcxsCtor 1 2 [0, 1] [0, 3, 2] (some [2, 2]) (some [0]) = .error Err.value := by decide
+
+/-- non-vacuity, and what is accepted by design: a well-formed `(2, 2, 3)` array compressed along axis 0 (index 5 = cell `(1, 2)` of the
+`2 × 3` uncompressed extent; 6 is outside); a row with a repeated index and a row with descending indices are both accepted -/
+example : gcxsContract 1 [5] [0, 1, 1] [2, 2, 3] (some [0]) ∧ gcxsCtor 1 1 [5] [0, 1, 1] (some [2, 2, 3]) (some [0]) = .ok () ∧
+    gcxsCtor 1 1 [6] [0, 1, 1] (some [2, 2, 3]) (some [0]) = .error Err.value ∧
+    gcxsCtor 1 2 [1, 1] [0, 2] (some [1, 2]) (some [0]) = .ok () ∧ gcxsCtor 1 2 [1, 0] [0, 2] (some [1, 2]) (some [0]) = .ok () ∧
+    gcxsCtor 1 1 [0] [0, 1, 1] (some [2, 2]) none = .error Err.type := by decide
+
 /-! ## (b) termination -/
 
 /-- **linear_filter_loop_terminates.** The first `while` of `get_slicing_selection` (cursors `count`, `col_count`) exits within
